@@ -22,6 +22,7 @@ thread_local! {
     static BLOWN: Cell<bool> = Cell::new(false);
     static MAXBITS: Cell<u64> = Cell::new(0);
     static OPS: Cell<u64> = Cell::new(0);
+    static PEAK: Cell<usize> = Cell::new(0);
 }
 
 /// bit-size above which a trial is declared inconclusive (numbers still work, just slowly)
@@ -57,6 +58,54 @@ pub fn reset() {
     BLOWN.with(|b| b.set(false));
     MAXBITS.with(|b| b.set(0));
     OPS.with(|b| b.set(0));
+    PEAK.with(|b| b.set(0));
+}
+/// largest number of arena entries alive at once since the last `reset`
+pub fn peak() -> usize {
+    PEAK.with(|b| b.get())
+}
+/// Position of the arena: every handle created from now on can be given back with `release`.
+pub fn mark() -> usize {
+    ARENA.with(|a| a.borrow().len())
+}
+/// Give back everything created since `mark`, except the values in `keep`, which are moved down
+/// (their handles are rewritten).  Every other handle created since `mark` becomes invalid: only
+/// for code that provably holds none (an oracle evaluating one step of a batch definition).
+pub fn release(mark: usize, keep: &mut [&mut Xq]) {
+    ARENA.with(|a| {
+        let mut a = a.borrow_mut();
+        if a.len() <= mark {
+            return;
+        }
+        let kept: Vec<Option<BigRational>> = keep.iter().map(|h| if h.0 >= BASE && (h.0 - BASE) as usize >= mark { Some(a[(h.0 - BASE) as usize].clone()) } else { None }).collect();
+        a.truncate(mark);
+        for (h, r) in keep.iter_mut().zip(kept) {
+            if let Some(r) = r {
+                a.push(r);
+                **h = Xq(BASE + (a.len() - 1) as u32);
+            }
+        }
+    })
+}
+/// Gives back, when dropped, every exact value created since it was made (see `release`).
+pub struct Scope(usize);
+impl Scope {
+    pub fn new() -> Scope {
+        Scope(mark())
+    }
+}
+impl Drop for Scope {
+    fn drop(&mut self) {
+        release(self.0, &mut []);
+    }
+}
+/// Run `f`, which must return nothing that holds a handle (plain floats, booleans), and give back
+/// every exact value it created.
+pub fn scoped<R>(f: impl FnOnce() -> R) -> R {
+    let m = mark();
+    let r = f();
+    release(m, &mut []);
+    r
 }
 pub fn blown() -> bool {
     BLOWN.with(|b| b.get())
@@ -88,7 +137,13 @@ fn push(r: BigRational) -> Xq {
             panic!("XQ-BLOWN: arena beyond {} entries", ARENA_CAP);
         }
         a.push(r);
-        Xq(BASE + (a.len() - 1) as u32)
+        let n = a.len();
+        PEAK.with(|p| {
+            if n > p.get() {
+                p.set(n)
+            }
+        });
+        Xq(BASE + (n - 1) as u32)
     })
 }
 
